@@ -33,8 +33,17 @@ fn run_engine(path: &str, args: &[&str], envs: &[(&str, &str)], label: &str) -> 
             }
         }
         Ok(out) => {
-            eprintln!("MACHINERY-ERROR {} exited with {:?}", label, out.status);
-            rep.notes.insert("machinery_errors".into(), 1);
+            use std::os::unix::process::ExitStatusExt;
+            if let Some(sig) = out.status.signal() {
+                // an engine that runs the library's band code in-process died on a signal: a crash
+                // verdict (memory corruption / abort inside the library), not a machinery failure
+                let s = format!("C08|crash|engine '{}' died on signal {} while running band code", label, sig);
+                rep.sig_counts.insert(s.clone(), 1);
+                rep.viols.push(Viol { space: format!("engine:{}", label), idx: 0, sig: s, detail: json!({"status": format!("{:?}", out.status)}) });
+            } else {
+                eprintln!("MACHINERY-ERROR {} exited with {:?}", label, out.status);
+                rep.notes.insert("machinery_errors".into(), 1);
+            }
         }
         Err(e) => {
             eprintln!("MACHINERY-ERROR cannot run {}: {} (was `run.sh --setup` / `run.sh C08` used?)", path, e);
